@@ -474,10 +474,13 @@ def merge_and_report(prop: Prop, tier, seed, parts, wall, replay_mode=False):
         print(f'  oracle={oracle} count={v["count"]} msg={v["msg"][:300]}')
         rc = 1
     write_evidence(prop, tier, seed, cov, len(viols), wall, list(prop.ASSUMPTIONS), known_lines)
-    if herr:
+    if herr and rc == 0:
         print('HARNESS-ERROR (exit 2):', file=sys.stderr)
         print(herr[0], file=sys.stderr)
         return 2
+    if herr:
+        # the harness also tripped over something (usually the same misbehaviour): the violations found stand
+        print(f'(note: {len(herr)} harness error(s) besides the violations; first: {herr[0].strip().splitlines()[-1][:200]})', file=sys.stderr)
     print(f'{prop.ID} {tier}: evaluations={evaluations} distinct_nontrivial={len(nontrivial)} '
           f'violations={len(viols)} wall={wall:.1f}s')
     return rc
